@@ -1306,6 +1306,26 @@ def opts_frame(ctx, rule="B1", fields=("StreamOrder",)):
                       "StreamOpts::%s keeps or sets `%s` from its own arguments/constants: options chosen by earlier builder calls survive" % (sig["name"], flds[i]["name"]),
                       "StreamOpts::%s replaces `%s` by a value from elsewhere (%s): an option chosen by an earlier builder call is silently reset" % (
                           sig["name"], flds[i]["name"], bad[:3]))
+    # a builder method that takes a value of a selected field's type stores THAT argument in the field (a setter whose
+    # assignment is gone type-checks and returns the options unchanged)
+    for b in fb.prod_bodies():
+        sig = fb.fns.get(b.id)
+        if not sig or not (sig.get("impl_self", "") or "").startswith("stream_opts::StreamOpts") or not sig.get("public"):
+            continue
+        if not sig["output"]["s"].startswith("stream_opts::StreamOpts") or len(sig["inputs"]) < 2 or \
+                not sig["inputs"][0]["s"].startswith("stream_opts::StreamOpts"):
+            continue
+        for ai, inp in enumerate(sig["inputs"][1:], start=2):
+            tgt = [i for i in sel if flds[i]["ty"]["s"].split("<")[0] == inp["s"].split("<")[0]]
+            if len(tgt) != 1:
+                continue
+            i = tgt[0]
+            srcs_ = fl.sources_local(b, 0, (i,))
+            stored = any(s_.kind == "param" and s_[1] == b.id and s_[2] == ai for s_ in srcs_)
+            ctx.check(stored, rule, "setter|%s|%s" % (sig["name"], flds[i]["name"]), ctx.model.where(b),
+                      "StreamOpts::%s stores its argument in `%s`" % (sig["name"], flds[i]["name"]),
+                      "StreamOpts::%s takes a value for `%s` but the returned options do not contain it: the caller's choice is silently dropped" % (
+                          sig["name"], flds[i]["name"]))
     if n < len(sel) or not sel:
         ctx.unverifiable(rule, "floor", "-", "no StreamOpts builder method with the selected fields %s found" % (fields,))
 
@@ -1343,6 +1363,16 @@ def order_wiring(ctx, rule="B2"):
                   "opts.stream_order of this entry point never reaches the scheduler set-up (its options are dropped on the way): reverse order is ignored")
     if n < 4:
         ctx.unverifiable(rule, "floor", "-", "expected entry points taking StreamOpts, found %d" % n)
+    # entry points without options run forward: every StreamOrder CONSTANT that can reach the set-up is Forward
+    for s_ in srcs:
+        if s_.kind == "agg" and s_[4] == "stream_order::StreamOrder":
+            sb_ = fb.bodies[s_[1]]
+            st_ = sb_.blocks[s_[2]]["stmts"][s_[3]]
+            var = st_["rv"].get("variant")
+            ctx.check(var == "Forward", rule, "const-order|%s" % short(sb_.id), m.where(sb_, s_[2]),
+                      "the fixed order %s passes on is StreamOrder::Forward" % short(sb_.id),
+                      "%s runs the graph with the fixed order StreamOrder::%s although the caller chose none: dependents start before "
+                      "what they depend on" % (short(sb_.id), var))
 
 
 def S1_opts(ctx, rule):
@@ -1359,6 +1389,7 @@ def S1_opts(ctx, rule):
         return
     fl = ctx.model.flow
     n_ctor = 0
+    n_rev = 0
     for b in fb.prod_bodies():
         sig = fb.fns.get(b.id)
         if not sig or not (sig.get("impl_self", "") or "").startswith("stream_opts::StreamOpts"):
@@ -1385,11 +1416,14 @@ def S1_opts(ctx, rule):
                       "StreamOpts::%s() selects StreamOrder::Forward" % name, "StreamOpts::%s() stores %s %s" % (name, sorted(map(str, vals)), other[:2]))
         elif vals or other:
             # a builder method that sets the order: must be Reverse (rev)
+            n_rev += 1 if vals == {"Reverse"} else 0
             ctx.check(vals == {"Reverse"} and not other, rule, "opts-setter|%s" % name, where,
                       "StreamOpts::%s() stores StreamOrder::Reverse" % name,
                       "StreamOpts::%s() stores %s %s" % (name, sorted(map(str, vals)), other[:2]))
     if n_ctor < 1:
         ctx.unverifiable(rule, "opts-default", "-", "no StreamOpts constructor found")
+    ctx.check(n_rev >= 1, rule, "opts-setter-exists", "-", "a builder method of StreamOpts stores StreamOrder::Reverse",
+              "no builder method of StreamOpts stores StreamOrder::Reverse: reverse order can be requested but never takes effect")
 
 
 # ---------------------------------------------------------------------------
